@@ -10,6 +10,8 @@ usage: lane.py new <n>                    create lane n from the committed /repo
        lane.py sync <n>                   refresh the lane's copy of /verif sources (checks/, harness/, lean sources, seeded/)
        lane.py seeded <n> <name> [...]    for each seeded/<name>: apply, run its checks (quick), restore; results -> seeded/RESULTS.json
        lane.py rm <n>
+       lane.py ext <Cxx>                  private full copy of /verif under /tmp/ext/<Cxx>/verif for extension work on one property
+       lane.py pull <Cxx>                 copy the files that property owns back from its ext copy
 """
 import json
 import os
@@ -116,6 +118,42 @@ def seeded(n, names, tier="quick"):
         json.dump(results, open(res_path, "w"), indent=1, sort_keys=True)
 
 
+def ext_new(pid):
+    """private full copy of /verif for one property's extension work: /tmp/ext/<pid>/verif (checks run there against /repo)"""
+    d = os.path.join("/tmp/ext", pid, "verif")
+    os.makedirs(d, exist_ok=True)
+    r = sh(["rsync", "-a", "--delete", "--exclude", ".git", ROOT + "/", d + "/"])
+    if r.returncode != 0:
+        print(r.stderr[-2000:])
+        sys.exit(1)
+    print("ext copy for", pid, "at", d)
+
+
+def owned(pid):
+    lo = pid.lower()
+    return ["lean/TbbVerif/Model/%s*" % pid, "lean/TbbVerif/Proofs/%s*" % pid, "lean/TbbVerif/Props/%s.lean" % pid,
+            "lean/TbbVerif/Generated/%s*" % pid, "lean/Driver/%s.lean" % pid, "checks/%s*.py" % lo, "harness/%s/" % lo]
+
+
+def ext_pull(pid):
+    """copy the files property <pid> owns from its ext copy back into /verif (nothing else)"""
+    import glob
+    d = os.path.join("/tmp/ext", pid, "verif")
+    for pat in owned(pid):
+        for src in glob.glob(os.path.join(d, pat)):
+            rel = os.path.relpath(src, d)
+            dst = os.path.join(ROOT, rel)
+            if os.path.isdir(src):
+                os.makedirs(dst, exist_ok=True)
+                r = sh(["rsync", "-a", "--delete", "--exclude", "__pycache__", src.rstrip("/") + "/", dst.rstrip("/") + "/"])
+            else:
+                os.makedirs(os.path.dirname(dst), exist_ok=True)
+                r = sh(["rsync", "-a", src, dst])
+            if r.returncode != 0:
+                print(r.stderr[-500:])
+    print("pulled", pid)
+
+
 def rm(n):
     d = lane_dir(n)
     sh(["git", "-C", "/repo", "worktree", "remove", "--force", os.path.join(d, "repo")])
@@ -131,5 +169,9 @@ if __name__ == "__main__":
         sync(sys.argv[2])
     elif cmd == "seeded":
         seeded(sys.argv[2], sys.argv[3:])
+    elif cmd == "ext":
+        ext_new(sys.argv[2])
+    elif cmd == "pull":
+        ext_pull(sys.argv[2])
     elif cmd == "rm":
         rm(sys.argv[2])
